@@ -117,6 +117,65 @@ func main() {
 			}
 			return v.String(), "200"
 		})
+	case "badresp":
+		// C10: a program served by ZnHttpHandler answers with an HTTP响应 object whose parts have
+		// the wrong type or a status no HTTP response can carry. The host must answer (with an
+		// error), never panic: Errors = requests during which ServeHTTP panicked
+		httpLib := r.NewLibrary("@响应库")
+		httpLib.RegisterClass("HTTP响应", common.CLASS_HttpResponse)
+		mk := func() *exec.Interpreter {
+			return exec.NewInterpreter("verif").SetExternalLibs([]*r.Library{zjson.Export(), zfile.Export(), httpLib})
+		}
+		pre := "导入《@响应库》\n输入当前请求\n"
+		progs := map[string]string{
+			"well-formed":          pre + "输出（新建HTTP响应：200、“ok”、【“x” = “1”】）\n",
+			"header-is-number":     pre + "令应 = （新建HTTP响应：200、“ok”）\n应之头部 = 1\n输出应\n",
+			"header-is-text":       pre + "令应 = （新建HTTP响应：200、“ok”）\n应之头部 = “x”\n输出应\n",
+			"header-is-list":       pre + "令应 = （新建HTTP响应：200、“ok”）\n应之头部 = 【1，2】\n输出应\n",
+			"header-is-null":       pre + "令应 = （新建HTTP响应：200、“ok”）\n应之头部 = 空\n输出应\n",
+			"header-value-is-list": pre + "输出（新建HTTP响应：200、“ok”、【“x” = 【1，2】，“y” = 空，“z” = 3】）\n",
+			"status-is-text":       pre + "令应 = （新建HTTP响应：200、“ok”）\n应之状态码 = “二百”\n输出应\n",
+			"status-is-null":       pre + "令应 = （新建HTTP响应：200、“ok”）\n应之状态码 = 空\n输出应\n",
+			"status-0":             pre + "输出（新建HTTP响应：0、“ok”）\n",
+			"status-negative":      pre + "输出（新建HTTP响应：-1、“ok”）\n",
+			"status-fraction":      pre + "输出（新建HTTP响应：2.5、“ok”）\n",
+			"status-99":            pre + "输出（新建HTTP响应：99、“ok”）\n",
+			"status-1000":          pre + "输出（新建HTTP响应：1000、“ok”）\n",
+			"status-huge":          pre + "输出（新建HTTP响应：1*10^19、“ok”）\n",
+			"status-infinite":      pre + "令大 = 1*10^308 * 10\n输出（新建HTTP响应：大、“ok”）\n",
+			"status-nan":           pre + "令大 = 1*10^308 * 10\n输出（新建HTTP响应：大 - 大、“ok”）\n",
+			"content-is-object":    pre + "令应 = （新建HTTP响应：200、“ok”）\n应之内容 = 应\n输出应\n",
+			"content-is-null":      pre + "令应 = （新建HTTP响应：200、“ok”）\n应之内容 = 空\n输出应\n",
+			"result-is-type":       pre + "输出 HTTP响应\n",
+			"result-is-null":       pre + "输出 空\n",
+			"result-is-bool":       pre + "输出 真\n",
+		}
+		names := []string{}
+		for k := range progs {
+			names = append(names, k)
+		}
+		sort.Strings(names)
+		for si, name := range names {
+			entry := filepath.Join(*dir, fmt.Sprintf("entry-b%d.zn", si))
+			os.WriteFile(entry, []byte(progs[name]), 0o644)
+			h := server.NewZnHttpHandler(mk(), entry)
+			func() {
+				w := httptest.NewRecorder()
+				defer func() {
+					if p := recover(); p != nil {
+						sum.Errors++
+						sum.Samples = append(sum.Samples, fmt.Sprintf("[%s] ServeHTTP panicked: %v", name, p))
+					} else if len(sum.Samples) < 40 {
+						sum.Samples = append(sum.Samples, fmt.Sprintf("[%s] status %d body %.40q", name, w.Code, w.Body.String()))
+					}
+				}()
+				sum.Requests++
+				h.ServeHTTP(w, httptest.NewRequest("GET", "/x", nil))
+				if name == "well-formed" && (w.Code != 200 || w.Body.String() != "ok") {
+					sum.Crossed++
+				}
+			}()
+		}
 	case "headers":
 		// the same request served again and again must give the same response, byte for byte:
 		// several request shapes, each with its own entry file
